@@ -602,6 +602,12 @@ func execCells(thorough bool) []Cell {
 func allCells(thorough bool) []Cell {
 	out := execCells(thorough)
 	// a step whose template cannot be rendered, at every position of short programs, 3 shots
+	// the form name(,sleep): default multiplicity, a pause of its own
+	for _, p := range [][]string{{"a(,100)"}, {"a(,100)", "b"}, {"b(,70)", "c(,30)"}, {"c", "b(,70)", "a"}} {
+		for _, mw := range []int{0, 30, 500} {
+			out = append(out, Cell{Mode: "exec", Program: p, MinWait: mw, Instances: 1, Shots: 2})
+		}
+	}
 	for _, p := range [][]string{{"e"}, {"a", "e"}, {"e", "a"}, {"a", "e", "b"}, {"b", "e"}, {"b(2)", "e", "c"}, {"c", "e"}, {"a(1,100)", "e"}} {
 		for _, mw := range []int{0, 30} {
 			out = append(out, Cell{Mode: "exec", Program: p, MinWait: mw, Instances: 1, Shots: 3})
